@@ -19,7 +19,8 @@ INVS = ()
 
 
 def run_case(case):
-    ver, path, boot, fh2n, fn2h, win = case
+    ver, path, boot, fh2n, fn2h, win = case[:6]
+    order = case[6] if len(case) > 6 else "A"      # "B": the application-style second start-up comes right after the first bring-up
 
     async def main(loop):
         rig = stackrig.StackRig(loop, ver, path, win)
@@ -27,10 +28,11 @@ def run_case(case):
         rig.peer.faults_n2h = list(fn2h)
         rig.peer.ezsp.stack_type = 2 if (len(fh2n) + win) % 2 else 4
         ezsp = await rig.connect((boot, 0x0B) if boot != "none" else None)
-        if boot != "none":
+        if boot not in ("none", "early"):
             loop.call_later((0.3 if boot.startswith("inwindow") else 1.2) - 0.0001, rig.note, {"o": "ncpreset"})
 
         async def stage(name, coro):
+            rig.note({"o": "stagestart", "stage": name})
             t = asyncio.ensure_future(coro)
             await rig.run_until(t, 90)
             exc = ""
@@ -54,6 +56,18 @@ def run_case(case):
             ok = await stage("helper", ezsp.read_counters())
         if ok:
             ok = await stage("helper", ezsp.read_and_clear_counters())
+        async def second_startup(ok):
+            if ok:
+                # a later start-up on the same EZSP object, as ControllerApplication._reset() does it: stop, start-up reset, configuration
+                ezsp.stop_ezsp()
+                ok = await stage("startup", ezsp.startup_reset())
+            if ok:
+                ok = await stage("config", ezsp.write_config({}))
+            if ok:
+                ok = await stage("helper", ezsp.read_counters())
+            return ok
+        if order == "B":
+            ok = await second_startup(ok)
         if ok:
             ok = await stage("reset", ezsp.reset())
         if ok:
@@ -66,6 +80,8 @@ def run_case(case):
             ok = await stage("helper", ezsp.read_and_clear_counters())
         if ok:
             ok = await stage("command", ezsp.nop())
+        if order == "A":
+            ok = await second_startup(ok)
         if ok and not fh2n and not fn2h and boot == "none":
             # "from then on every frame": a run long enough to take the request sequence number past 255
             async def many():
@@ -79,6 +95,8 @@ def run_case(case):
                 tr.append({"a": "ncpreset", "t": n["t"]})
             elif n["o"] == "ezsp_rx":
                 tr.append({"a": "ezsp_rx", "fmt": n["fmt"], "id": n["id"], "desired": n["desired"], "t": n["t"]})
+            elif n["o"] == "stagestart":
+                tr.append({"a": "stagestart", "stage": n["stage"], "t": n["t"]})
             elif n["o"] == "result":
                 tr.append({"a": "result", "stage": n["stage"], "exc": n["exc"], "version": n["version"], "tables": n["tables"], "t": n["t"]})
         return tr
@@ -132,19 +150,21 @@ def run(ctx: Ctx):
     scheds = fault_schedules(ctx.quick, rng)
     cases = []
     for ver in VERSIONS:
-        for path, boots in (("/dev/ttyFAKE0", ("none", "inwindowgap")), ("socket://10.0.0.1:6638", ("none", "inwindow", "late", "lategap"))):
+        for path, boots in (("/dev/ttyFAKE0", ("none", "inwindowgap")), ("socket://10.0.0.1:6638", ("none", "early", "inwindow", "late", "lategap"))):
             for boot in boots:
                 for i, (a, b) in enumerate(scheds):
                     if ctx.quick and i > 0 and (i + ver) % 3:
                         continue
-                    cases.append((ver, path, boot, a, b, 1 + (i + ver) % 3))
+                    cases.append((ver, path, boot, a, b, 1 + (i + ver) % 3, "B" if (i == 0 or (i + ver) % 2) else "A"))
+                    if i == 0:
+                        cases.append((ver, path, boot, a, b, 1 + (i + ver) % 3, "A"))
     traces = pmap(run_case, cases, chunksize=8)
     ctx.evaluations = len(traces)
     ctx.distinct_nontrivial = len({str(c) for c in cases})
     ctx.rule = ("NCP versions 4..14, 15, 16, 200 x {serial: no start-up reset / start-up reset while the host's RST waits; socket://: start-up reset absent, "
                 "in the wait window, late, late with the RST still unread} x fault schedules (a single drop / corruption / duplication at each of the first "
-                "frames in either direction, random multi-fault schedules) x NCP windows 1..3; each run: startup_reset, write_config, a second reset, "
-                "version, one command; distinct = distinct case")
+                "frames in either direction, random multi-fault schedules) x NCP windows 1..3; each run: startup_reset, write_config, helpers, an explicit reset + "
+                "version + commands, and a second application-style start-up (stop, startup_reset, write_config) before or after the explicit reset; socket:// also with the start-up reset announced before anybody waits; distinct = distinct case")
     ctx.add_sample({"case": cases[1], "trace": traces[1][:12]})
     ctx.validate_traces("Trace_Bringup", traces, invariants=INVS, metas=[list(c) for c in cases], label="bring-up", sig=sig)
     ctx.exhaustive = False
